@@ -62,12 +62,18 @@ def words_and_labels_bounded(seed):
                     '\\end{otherlanguage}\\begin{otherlanguage}{french}\n'
                     '%s\n\\end{otherlanguage}\n' % (
                         words(2, 'german'), words(2, 'french')))
+        if kind == 'On':
+            return ('\n\\begin{otherlanguage}{german}\n%s '
+                    '\\foreignlanguage{german}{%s} %s\n'
+                    '\\end{otherlanguage}\n' % (
+                        words(2, 'german'), words(1, 'german'),
+                        words(3, 'german')))
         if kind == 'FN':
             return '%s\\footnote{%s} ' % (words(1, stack[-1]),
                                            words(2, stack[-1]))
         if kind == 'P':
             return '\n\n'
-    kinds = ['W', 'Fs', 'Fl', 'Sde', 'Sen', 'O', 'OO', 'FN', 'P']
+    kinds = ['W', 'Fs', 'Fl', 'Sde', 'Sen', 'O', 'OO', 'On', 'FN', 'P']
     n, fails = 0, []
     for ln in range(1, 5):
         for combo in itertools.product(kinds, repeat=ln):
@@ -78,13 +84,22 @@ def words_and_labels_bounded(seed):
             if ln == 4 and h % 60:
                 continue
             counter[0] = 0
-            stack, exp = ['english'], []
+            # three ways of fixing the main language: the last babel
+            # option; a package option after a class option (the package
+            # option wins); the same with the roles exchanged
+            pre, main = [
+                ('\\usepackage[german,french,english]{babel}\n', 'english'),
+                ('\\documentclass[german]{article}\n'
+                 '\\usepackage[french,english]{babel}\n', 'english'),
+                ('\\documentclass[english]{article}\n'
+                 '\\usepackage[french,german]{babel}\n', 'german'),
+            ][h % 3]
+            stack, exp = [main], []
             body = 'wstartx '
-            exp.append(('wstartx', 'english'))
+            exp.append(('wstartx', main))
             for k in combo:
                 body += piece(k, stack, exp)
-            src = '\\usepackage[german,french,english]{babel}\n' + body + \
-                ' ' + 'wendx\n'
+            src = pre + body + ' ' + 'wendx\n'
             exp.append(('wendx', stack[-1]))
             n += 1
             try:
@@ -114,7 +129,7 @@ def words_and_labels_bounded(seed):
     return {'name': 'every-word-in-one-part-of-its-language',
             'bounded': True,
             'bound': 'all documents of 1-2 pieces, a 4th of those with 3 '
-                     'and a 60th of those with 4 pieces over 9 piece kinds',
+                     'and a 60th of those with 4 pieces over 10 piece kinds',
             'evaluations': n, 'failures': fails}
 
 
